@@ -14,7 +14,7 @@
      PParse      425      parse.PrimaryPackage reads the magefiles (-> the text to generate)
      PCreate     633      os.Create(D/mage_output_file.go): O_CREAT|O_TRUNC - TRUNCATES an existing file
      PWrite      651-656  template.Execute(f) + Close: writes through the descriptor (the inode it opened)
-     PChtimes    660      os.Chtimes(path): fails when the path is gone
+     PChtimes    664      os.Chtimes(path): fails when the path is gone (and then removes the path, fix 1372a21)
      PBuild      450      `go build -o <cache>/<name> <magefiles> mage_output_file.go` run in D: reads D's
                           magefiles and D/mage_output_file.go AT THAT MOMENT, installs the binary
      PFailRm     447      deferred os.RemoveAll(main) after a failed build
@@ -133,7 +133,7 @@ Definition step (i : nat) (iv : inv) (fs : fsys) (p : proc) : fsys * proc :=
   | PChtimes =>
       match f_main fs D with
       | Some _ => (fs, goto p PBuild)
-      | None => (fs, with_res p PDone fail)                        (* "error setting old modtime"; no defer yet *)
+      | None => (upd_main fs D None, with_res p PDone fail)        (* "error setting old modtime": os.Remove(path) (fix 1372a21), no defer yet *)
       end
   | PBuild =>
       match f_main fs D with
@@ -230,7 +230,7 @@ Definition step_compile (i : nat) (iv : inv) (fs : fsys) (p : proc) : fsys * pro
   | PChtimes =>
       match f_main fs D with
       | Some _ => (fs, goto p PBuild)
-      | None => (fs, with_res p PDone fail)
+      | None => (upd_main fs D None, with_res p PDone fail)
       end
   | PBuild =>
       match f_main fs D with
